@@ -34,6 +34,10 @@ static void build_image(Memory *m)
   int layout = symx_fork("layout", 3);
   img_n = 0;
   int sym = 0;
+  // code bytes carry the number of the source line that emitted them (any line of a source file: 1 .. INT_MAX-1);
+  // the writers use the same per-byte field to tell written from never-written bytes
+  uint32_t line = symx_u32("line");
+  symx_assume(line >= 1 && line <= 0x7ffffffeu);
   if (layout < 2)
   {
     uint32_t gap = layout == 0 ? 1 : 21;
@@ -49,7 +53,7 @@ static void build_image(Memory *m)
     // symbolic bytes are spread: first, last, middle...
     int want_sym = (i == 0 || i == img_n - 1 || i == 2 || i == 3) && sym < NSYM;
     if (want_sym) { img_val[i] = symx_u8("d"); sym++; } else img_val[i] = (uint8_t)(0xa1 + 7 * i);
-    m->write(img_addr[i], img_val[i], (i & 1) ? 5 : DL_DATA);
+    m->write(img_addr[i], img_val[i], (i & 1) ? (int)line : DL_DATA);
   }
   symx_note("base", base); symx_note("layout", layout);
 }
